@@ -134,3 +134,23 @@ Definition value_eqb (a b : value) : bool :=
 Definition prop_C05_value (ty : prim) (v : value) (got : option value) : bool :=
   negb (in_range ty v) ||
   match got with Some g => value_eqb g v | None => false end.
+
+(* ---- oracle on one observed request against a compiled router ----
+   raw: the text sent for the parameter (None = parameter absent); required: non-pointer, path, or
+   explicitly validated as required; invoked / null_arg / got: what the echoing controller
+   recorded; has_rule: the parameter carries a validator rule other than `required` (not modelled:
+   it may reject a value that converts). *)
+Definition opt_value_eqb (a : option value) (b : value) : bool :=
+  match a with Some x => value_eqb x b | None => false end.
+
+Definition prop_C05_request (ty : prim) (raw : option str) (required invoked null_arg : bool)
+           (status : N) (got : option value) (has_rule : bool) : bool :=
+  match raw with
+  | None => if required then N.eqb status 422 && negb invoked else invoked && null_arg
+  | Some r =>
+      match convert ty r with
+      | Some v => if has_rule then (if invoked then opt_value_eqb got v else N.eqb status 422)
+                  else invoked && opt_value_eqb got v
+      | None => N.eqb status 422 && negb invoked
+      end
+  end.
